@@ -295,7 +295,7 @@ fn part() -> HistPart<Mon, impl Fn(&Setup) -> Mon + Sync> {
     sp.codecs = vec![CodecKind::Fix, CodecKind::Var];
     sp.packet = vec![(20, 60), (60, 140), (1400, 1401)];
     sp.max_tx = (1, 8);
-    HistPart { name: "histories", sp, p, cases_quick: 30_000, cases_thorough: 2_000_000, mk: |s: &Setup| Mon::new(s) }
+    HistPart { name: "histories", sp, p, cases_quick: 120_000, cases_thorough: 2_000_000, mk: |s: &Setup| Mon::new(s) }
 }
 
 /// the same generator, but every case has broadcasts enabled with a generated handler
@@ -315,7 +315,7 @@ impl Part for EnabledPart {
             .boxed()
     }
     fn cases(&self, tier: Tier) -> u64 {
-        tier.pick(30_000, 2_000_000)
+        tier.pick(120_000, 2_000_000)
     }
     fn exec(&self, c: &Case, out: &mut CaseOut) -> Result<(), Fail> {
         let mut m = Mon::new(&c.setup);
